@@ -31,19 +31,23 @@ use std::time::Duration;
 // ------------------------------------------------------------------------------------------------
 // scripted reader
 
-/// Delivers `data` in segments ending at the offsets in `cuts` (ascending). A read after the last byte is
-/// what a keep-alive connection would block on: it is flagged (`over`) and fails, it is never an EOF.
+/// Delivers `data` in segments ending at the offsets in `cuts` (ascending). For a message framed by
+/// Content-Length or chunked coding a read after the last byte is what a keep-alive connection would block
+/// on: it is flagged (`over`) and fails, it is never an EOF. A message without framing header can only be
+/// delimited by the server closing the connection, so there (`closes`) the end of the data is an EOF and
+/// reading up to it is legitimate.
 struct Scripted<'a> {
     data: &'a [u8],
     cuts: &'a [usize],
     ci: usize,
     pos: usize,
     over: bool,
+    closes: bool,
 }
 
 impl<'a> Scripted<'a> {
     fn new(data: &'a [u8], cuts: &'a [usize]) -> Self {
-        Scripted { data, cuts, ci: 0, pos: 0, over: false }
+        Scripted { data, cuts, ci: 0, pos: 0, over: false, closes: !framed(data) }
     }
 }
 
@@ -53,6 +57,9 @@ impl<'a> Read for Scripted<'a> {
             return Ok(0);
         }
         if self.pos >= self.data.len() {
+            if self.closes {
+                return Ok(0);
+            }
             self.over = true;
             return Err(io::Error::new(io::ErrorKind::WouldBlock, "read past the end of the message"));
         }
@@ -65,6 +72,13 @@ impl<'a> Read for Scripted<'a> {
         self.pos += n;
         Ok(n)
     }
+}
+
+/// Does the head of the message carry Content-Length or Transfer-Encoding?
+fn framed(data: &[u8]) -> bool {
+    let end = data.windows(4).position(|w| w == b"\r\n\r\n").unwrap_or(data.len());
+    let head = String::from_utf8_lossy(&data[..end]).to_ascii_lowercase();
+    head.split("\r\n").skip(1).any(|l| l.starts_with("content-length:") || l.starts_with("transfer-encoding:"))
 }
 
 /// Split plans for a message of `len` bytes: all at once, one byte per read, (level >= 2) every single
@@ -211,6 +225,15 @@ fn split_hline(l: &str) -> Option<(String, String)> {
     Some((n.to_string(), v.trim_matches(|c| c == ' ' || c == '\t').to_string()))
 }
 
+/// cookie-av with its name in lower case (ABNF literals are case-insensitive); the value as it is, except SameSite's
+fn norm_av(av: &str) -> String {
+    match av.split_once('=') {
+        None => av.to_ascii_lowercase(),
+        Some((n, _)) if n.eq_ignore_ascii_case("samesite") => av.to_ascii_lowercase(),
+        Some((n, v)) => format!("{}={}", n.to_ascii_lowercase(), v),
+    }
+}
+
 fn build_response(version: &str, code: u16, headers: &[(String, String)], body: &[u8], via_new: bool) -> Option<Response> {
     let sc = status_of(code)?;
     let mut r = if via_new { Response::new(sc, body) } else { Response::empty(sc).with_bytes(body) };
@@ -235,6 +258,7 @@ struct Tally {
     dev_hits: BTreeMap<String, u64>,
     dev_first: BTreeMap<String, Value>,
     samples: Vec<Value>,
+    notes: Vec<Value>, // observations beyond the property (reported as drift, never as a mismatch)
 }
 impl Tally {
     fn bad(&mut self, v: Value) {
@@ -251,7 +275,9 @@ impl Tally {
 
 fn replay(level: usize) {
     let mut rng = Rng::from_env();
-    let mut t = Tally { evals: 0, mism: 0, first: vec![], dev_hits: BTreeMap::new(), dev_first: BTreeMap::new(), samples: vec![] };
+    let mut t = Tally { evals: 0, mism: 0, first: vec![], dev_hits: BTreeMap::new(), dev_first: BTreeMap::new(), samples: vec![], notes: vec![] };
+    let mut unmodelled: std::collections::HashSet<u16> = std::collections::HashSet::new(); // codes of the spec without a variant in status.rs
+    let mut unconsumed = 0u64;
     let (mut n_s, mut n_p, mut n_c, mut n_codes) = (0u64, 0u64, 0u64, 0u64);
     let mut nontrivial = 0u64; // distinct parse vectors with >= 2 chunks or >= 2 headers, distinct api vectors with body and headers
     let mut rt_checked = 0u64;
@@ -264,23 +290,25 @@ fn replay(level: usize) {
         match v["k"].as_str().unwrap_or("") {
             "codes" => {
                 n_codes += 1;
-                let mut spec: HashMap<u16, (String, String)> = HashMap::new();
+                let mut spec: HashMap<u16, Vec<String>> = HashMap::new();
                 for r in v["rows"].as_array().unwrap() {
-                    spec.insert(r["c"].as_u64().unwrap() as u16, (r["p"].as_str().unwrap().to_string(), r["alt"].as_str().unwrap().to_string()));
+                    spec.insert(r["c"].as_u64().unwrap() as u16, vec![r["p"].as_str().unwrap().to_string(), r["alt"].as_str().unwrap().to_string(), r["alt2"].as_str().unwrap().to_string()]);
                 }
                 for n in 0u16..=999 {
                     t.evals += 1;
                     match (status_of(n), spec.get(&n)) {
                         (None, None) => {}
-                        (Some(sc), Some((p, alt))) => {
+                        (Some(sc), Some(reg)) => {
                             let back: u16 = sc.into();
                             let phrase: &str = sc.into();
-                            if back != n || !(phrase == p || (!alt.is_empty() && phrase == alt)) {
-                                t.bad(json!({"kind": "codes", "code": n, "code_back": back, "phrase": phrase, "registered": [p, alt]}));
+                            if back != n || phrase.is_empty() || !reg.iter().any(|p| p == phrase) {
+                                t.bad(json!({"kind": "codes", "code": n, "code_back": back, "phrase": phrase, "registered": reg}));
                             }
                         }
-                        // the model and status.rs disagree about which codes exist: a coverage problem of the check
-                        (a, b) => t.bad(json!({"kind": "codes-domain", "code": n, "in_status_rs": a.is_some(), "in_spec": b.is_some()})),
+                        // the model and status.rs disagree about which codes exist: the property speaks of "any status code
+                        // Humphrey models", so a variant added to (or dropped from) status.rs is not a violation - it is a
+                        // gap of this check's table and reported as such
+                        (a, b) => { t.notes.push(json!({"kind": "codes-domain", "code": n, "in_status_rs": a.is_some(), "in_spec": b.is_some()})); if a.is_none() { unmodelled.insert(n); } }
                     }
                 }
             }
@@ -289,6 +317,9 @@ fn replay(level: usize) {
                 let r = &v["r"];
                 let version = r["version"].as_str().unwrap();
                 let code = r["code"].as_u64().unwrap() as u16;
+                if unmodelled.contains(&code) {
+                    continue;
+                }
                 let headers = jheaders(&r["headers"]);
                 let body_sym = r["body"].as_str().unwrap();
                 let lines: Vec<&str> = v["lines"].as_array().unwrap().iter().map(|x| x.as_str().unwrap()).collect();
@@ -376,6 +407,9 @@ fn replay(level: usize) {
                 let exp = &v["exp"];
                 let e_version = exp["version"].as_str().unwrap();
                 let e_code = exp["code"].as_u64().unwrap() as u16;
+                if unmodelled.contains(&e_code) {
+                    continue;
+                }
                 let e_headers = jheaders(&exp["headers"]);
                 let e_body_sym = exp["body"].as_str().unwrap();
                 if frames.len() >= 5 || e_headers.len() >= 3 {
@@ -391,7 +425,11 @@ fn replay(level: usize) {
                     for cuts in plans(wire.len(), &mut rng, level >= 2 && m == 0 || level >= 3, if level >= 2 { 2 } else { 1 }) {
                         t.evals += 1;
                         let p = parse_with(&wire, &cuts);
-                        let ok = p.res == "ok" && p.version == e_version && p.code == e_code && same_headers(&p.headers, &e_headers) && p.body == e_body && !p.over && p.consumed == wire.len();
+                        let ok = p.res == "ok" && p.version == e_version && p.code == e_code && same_headers(&p.headers, &e_headers) && p.body == e_body && !p.over;
+                        // (whether the parser also consumed the last CRLF of the message is not an observable of the property)
+                        if ok && p.consumed != wire.len() {
+                            unconsumed += 1;
+                        }
                         if !ok {
                             t.bad(json!({"kind": "parse", "vector": v, "wire": show(&wire), "map": m, "cuts": cuts, "expected": exp,
                                 "got": {"res": p.res, "version": p.version, "code": p.code, "headers": headers_json(&p.headers), "body": show(&p.body),
@@ -446,13 +484,13 @@ fn replay(level: usize) {
                     };
                     // acceptable attribute sets (one per acceptable Max-Age: truncated or rounded fraction)
                     let avsets: Vec<Vec<String>> = v["avsets"].as_array().unwrap().iter().map(|set| {
-                        let mut x: Vec<String> = set.as_array().unwrap().iter().map(|y| y.as_str().unwrap().replace('~', sub)).collect();
+                        let mut x: Vec<String> = set.as_array().unwrap().iter().map(|y| norm_av(&y.as_str().unwrap().replace('~', sub))).collect();
                         x.sort();
                         x
                     }).collect();
                     let mut parts = h.value.split("; ");
                     let pair = parts.next().unwrap_or("").to_string();
-                    let mut got_avs: Vec<String> = parts.map(|s| s.to_string()).collect();
+                    let mut got_avs: Vec<String> = parts.map(norm_av).collect();
                     got_avs.sort();
                     let mut what = vec![];
                     if h.name != HeaderType::SetCookie {
@@ -491,7 +529,8 @@ fn replay(level: usize) {
         }
     }
     out_line(&json!({"summary": true, "evaluations": t.evals, "mismatches": t.mism, "first": t.first, "dev_hits": t.dev_hits, "dev_first": t.dev_first,
-        "vectors": {"s": n_s, "p": n_p, "c": n_c, "codes": n_codes}, "nontrivial": nontrivial, "roundtrips": rt_checked, "samples": t.samples}));
+        "vectors": {"s": n_s, "p": n_p, "c": n_c, "codes": n_codes}, "nontrivial": nontrivial, "roundtrips": rt_checked, "samples": t.samples,
+        "notes": t.notes, "unconsumed_tail_cases": unconsumed}));
 }
 
 // ------------------------------------------------------------------------------------------------
@@ -741,14 +780,14 @@ fn serve(mut s: TcpStream, host: &str, st: &Arc<Mutex<ServerState>>) {
     let text = String::from_utf8_lossy(&req).to_string();
     let target = text.split(' ').nth(1).unwrap_or("").to_string();
     let path = target.split('?').next().unwrap_or("").to_string();
-    let (wire, seg) = {
+    let (wire, seg, unframed) = {
         let mut g = st.lock().unwrap();
         let e = g.script.get(&(host.to_string(), path.clone())).cloned().unwrap_or(Entry { code: 404, location: String::new(), framing: "cl".into(), id: 1000, body: b"lost".to_vec() });
         g.log.push(json!({"ev": "Req", "host": host, "path": path}));
         g.log.push(json!({"ev": "Resp", "host": host, "path": path, "code": e.code, "location": e.location, "id": e.id}));
         if !text.starts_with("GET ") { g.errors.push(format!("request is not a GET: {:?}", text.lines().next())); }
         let mut rng = Rng::new(g.seed ^ e.id.wrapping_mul(0x9E37) ^ fnv64(path.as_bytes()));
-        (render_entry(&e, &mut rng), g.seg)
+        (render_entry(&e, &mut rng), g.seg, e.framing == "none")
     };
     let mut rng = Rng::new(fnv64(&wire) ^ seg as u64);
     let r = match seg {
@@ -765,7 +804,11 @@ fn serve(mut s: TcpStream, host: &str, st: &Arc<Mutex<ServerState>>) {
     if r.is_err() {
         st.lock().unwrap().errors.push("write to the client failed".into());
     }
-    // a keep-alive server: the connection stays open until the client has what it wants and closes
+    // a response without framing header is delimited by closing (a client may legitimately read up to the EOF)
+    if unframed {
+        let _ = s.shutdown(std::net::Shutdown::Write);
+    }
+    // otherwise a keep-alive server: the connection stays open until the client has what it wants and closes
     let mut sink = [0u8; 256];
     loop {
         match s.read(&mut sink) {
@@ -853,6 +896,7 @@ fn client_replay(level: usize) {
     };
     let mut rng = Rng::from_env();
     let (mut n, mut evals, mut mism, mut nontrivial, mut conns) = (0u64, 0u64, 0u64, 0u64, 0u64);
+    let mut followed_optional = 0u64;
     let mut first: Vec<Value> = vec![];
     let mut samples: Vec<Value> = vec![];
     for line in stdin_lines() {
@@ -899,7 +943,13 @@ fn client_replay(level: usize) {
                 && (exp["framing"] == "none" || o.cl == e_body.len().to_string());
             // `errors` (server-side notes: write failed, client slow to close) are reported with a mismatch but are
             // not observables of the property and never make one
-            if !ok {
+            let optional = follow && [300u64, 303, 305].contains(&exp["code"].as_u64().unwrap()) && !exp["location"].as_str().unwrap().is_empty()
+                && o.res == "ok" && o.code == 200 && o.id == "999" && o.body == b"trap";
+            if !ok && optional {
+                // the model (client.rs as it is) returns the 303; the statement ("ends at the final non-redirect response")
+                // equally allows following it to where it points
+                followed_optional += 1;
+            } else if !ok {
                 mism += 1;
                 if first.len() < 20 {
                     first.push(json!({"kind": "client", "follow": follow, "script": script, "expected": exp, "segmentation": seg,
@@ -913,7 +963,7 @@ fn client_replay(level: usize) {
         }
     }
     out_line(&json!({"summary": true, "available": true, "behaviours": n, "evaluations": evals, "mismatches": mism, "first": first,
-        "nontrivial": nontrivial, "connections": conns, "samples": samples}));
+        "nontrivial": nontrivial, "connections": conns, "samples": samples, "followed_optional_3xx": followed_optional}));
 }
 
 fn client_random(n: usize) {
@@ -928,7 +978,7 @@ fn client_random(n: usize) {
     let hosts = ["127.0.0.1", "127.0.0.2"];
     for run in 0..n {
         // a random script: hops until a non-followed status; Location relative or absolute to either host
-        let len = rng.below(9);
+        let len = rng.below(6); // the property quantifies over chains of 0..5 redirects (a client may cap longer ones)
         let follow = rng.chance(7, 8);
         let mut entries: HashMap<(String, String), Entry> = HashMap::new();
         let mut bodies: HashMap<u64, Vec<u8>> = HashMap::new();
@@ -941,7 +991,9 @@ fn client_random(n: usize) {
             let next_path = format!("/r{}/{}", run, i + 1);
             let mut next_host = host;
             let location = if is_final {
-                if [303u16, 300, 305].contains(&code) && rng.chance(2, 3) { "/h99".to_string() } else { String::new() }
+                // a 3xx that is not followed by the code under test still says where to go (a conforming server sends Location
+                // with 303/305; a client that follows it must not be failed for a script no server would play)
+                if [303u16, 300, 305].contains(&code) { "/h99".to_string() } else { String::new() }
             } else if rng.chance(1, 2) {
                 next_path.clone()
             } else {
